@@ -235,6 +235,24 @@ def run_shard(st, kind, first, depth):
             return
         lv, tv = vector(live), vector(twin)
         st.add("evaluations", len(PROBES))
+        # absolute oracle as well: a process-wide cache would mislead live object and twin alike, so the live verdicts are
+        # also compared with the reference Draft-6 evaluator on the twin's serialization
+        try:
+            import json as _json
+            from mc.ref import draft6 as R
+            from statham.serializers import serialize_json
+
+            doc = _json.loads(_json.dumps(serialize_json(twin)))
+            for i, v in enumerate(PROBES):
+                if isinstance(v, NotPassed):
+                    continue
+                mask = R.verdict(doc, v, R.STATHAM)
+                accepted = lv[i][0] == impl.ACCEPT
+                if not ((accepted and mask & R.V) or (not accepted and mask & R.I)):
+                    st.violation("verdict-contradicts-current-configuration", "%s after %s: value %r is %s although the current configuration %s says %s" % (kind, [ops[j].name for j in hist], v, lv[i][0], _json.dumps(doc)[:200], "valid" if mask & R.V else "invalid"), {"kind": kind, "history": [ops[j].name for j in hist], "value": v, "document": doc}, rank=len(hist))
+                    break
+        except Exception as exc:
+            st.notes["absolute-oracle-unavailable:" + type(exc).__name__] += 1
         st.add("traces")
         if [k for k, _ in lv] != vec0:
             st.add("nontrivial")
